@@ -42,7 +42,8 @@ def gen(rng, tier, idx):
     b = mapfam.draw_side_cfg(rng, a, wp['n_query'], same_chunks=bitwise)
     if not bitwise:
         b['rng_seed'] = rng.randrange(2 ** 31)
-    return {'wp': wp, 'rel': rel, 'tier': tier, 'a': a, 'b': b, 'vseed': rng.randrange(2 ** 31),
+    int_dtype = rng.choice([None, None, 'uint8', 'uint16'])
+    return {'wp': wp, 'rel': rel, 'tier': tier, 'a': a, 'b': b, 'int_dtype': int_dtype, 'vseed': rng.randrange(2 ** 31),
             'sched_a': common.draw_sched(rng), 'sched_b': common.draw_sched(rng),
             'kcfg': common.draw_kernel_cfg(rng)}
 
@@ -58,7 +59,17 @@ def run(scn, sb):
     exact = False
     marker_genes = set(g for v in W.markers.values() for g in v)
     if rel == 'normalised':
-        Xb = model.log2cpm(W.q_X)
+        if scn.get('int_dtype') and float(np.abs(W.q_X - np.rint(W.q_X)).max()) == 0.0 and W.q_X.size:
+            # the raw side stored in a NARROW integer type (what validation writes): every entry fits, the per-cell
+            # totals do not (uint8: totals > 255; uint16: entries scaled up to ~60000, totals > 65535)
+            if scn['int_dtype'] == 'uint8' and W.q_X.max() <= 255:
+                a['dtype'] = 'uint8'
+                res['probes']['raw_query_in_uint8'] = 1
+            elif scn['int_dtype'] == 'uint16' and W.q_X.max() >= 1:
+                Xa = W.q_X * float(int(60000 // W.q_X.max()))
+                a['dtype'] = 'uint16'
+                res['probes']['raw_query_in_uint16'] = 1
+        Xb = model.log2cpm(Xa)
         b['normalization'] = 'log2CPM'
     elif rel == 'scale_pow2':
         # any positive constant: from totals far below one count to very large ones
